@@ -6,7 +6,7 @@ HERE = os.path.dirname(os.path.dirname(os.path.abspath(__file__)))
 EVID = os.path.join(HERE, "evidence")
 REPLAY = os.path.join(HERE, "replay")
 BASELINE = os.path.join(HERE, "baseline_obligations.json")
-KNOWN = os.path.join(HERE, "known_findings.jsonl")
+KNOWN = os.path.join(HERE, "known_findings.txt")
 VENV_PY = "/venv/bin/python"
 REPO = os.environ.get("PYVC_REPO", "/repo")
 
@@ -29,12 +29,20 @@ def stable_key(ob_name, note):
 
 
 def load_known():
+    """known_findings.txt -> list of dict(status, property, key, what, commit)"""
     out = []
     if os.path.exists(KNOWN):
         for l in open(KNOWN):
             l = l.strip()
-            if l and not l.startswith("#"):
-                out.append(json.loads(l))
+            if not l or l.startswith("#"):
+                continue
+            m = re.match(r"^known:\s+property=(\S+)\s+key=(\S+)\s+::\s+(.*)$", l)
+            if m:
+                out.append(dict(status="known", property=m.group(1), key=m.group(2), what=m.group(3)))
+                continue
+            m = re.match(r"^fixed:\s+property=(\S+)\s+(\S+)\s+(.*)$", l)
+            if m:
+                out.append(dict(status="fixed", property=m.group(1), commit=m.group(2), what=m.group(3)))
     return out
 
 
